@@ -3,6 +3,8 @@
 // modes
 //   --mode host                      host CPU features (asmjit CpuInfo::host(), used only to decide what to run), feature names, XSAVE layout
 //   --mode table --cases F           query only (no execution): one JSON record per case with the API's answers (T, C, F-superset checks in Python)
+//   --mode rmopt --cases F           query only: every operand reported kRegMem/rm_size (with {sae}/{er}/{k}/{z} options too) is replaced by
+//                                    memory and handed to validate() + Assembler (M check, encodability half, Python judges)
 //   --mode run   --cases F ...       native-execution sandbox: W (write coverage), R (read coverage), M (reg -> mem replacement), F (SIGILL) checks
 //   --mode a64c  --cases F           AArch64 register-list queries (C check)
 //
@@ -308,6 +310,95 @@ static int mode_table(const Args& args) {
     out += rw_json(rw, c.nops);
     if (!stale.empty()) out += ",\"stale\":" + jstr(stale);
     out += ",\"feat\":" + feat_json(A, feat) + "}\n";
+    if (out.size() > (1 << 20)) { fwrite(out.data(), 1, out.size(), stdout); out.clear(); }
+  }
+  fwrite(out.data(), 1, out.size(), stdout);
+  return 0;
+}
+
+// ---------------------------------------------------------------------------------------------------------------------
+// mode rmopt: "reported reg/mem replaceability is real", with instruction options (nothing executed)
+//   For every case (register form + BaseInst options {sae}/{er} + optional {k}/{z} extra register): query_rw_info; for every register
+//   operand the answer flags kRegMem with rm_size = N the same instruction (same options, same extra register) is rebuilt with that
+//   operand replaced by [base] of size N and handed to InstAPI::validate() and to x86::Assembler of the same arch mode.
+//   record: {"id","iid","v","rw","e","bytes","rmflag0":<kRegMem operands with rm_size 0>,"claims":[[op,N,validate-error,emit-error,"bytes",validate-error-is-kInvalidImmediate],..],"ops":[..]}
+
+static int mode_rmopt(const Args& args) {
+  std::ifstream f(args.str("cases"));
+  std::string line, out;
+  NullHandler nh;
+  Environment envs[2] = { Environment(Arch::kX86), Environment(Arch::kX64) };
+  CodeHolder code;
+  x86::Assembler a;
+  int since = 100000;
+  Arch cur = Arch::kUnknown;
+  while (std::getline(f, line)) {
+    if (line.empty()) continue;
+    Case c;
+    if (!parse_case(line, c)) { out += "{\"id\":-1,\"bad\":" + jstr(line) + "}\n"; continue; }
+    Arch A = c.arch == "x64" ? Arch::kX64 : Arch::kX86;
+    if (A != cur || ++since > 1000) {
+      code.reset(ResetPolicy::kHard); code.init(envs[A == Arch::kX64]); code.set_error_handler(&nh); code.attach(&a);
+      cur = A; since = 0;
+    }
+    Operand ops[6];
+    bool ok = build_ops(c, ops, 0x10000);
+    InstId inst_id = InstAPI::string_to_inst_id(A, c.name.c_str(), c.name.size());
+    Reg extra;
+    bool has_extra = c.extra_s != "-";
+    BaseInst bi(inst_id, InstOptions(c.opts));
+    if (has_extra) {
+      std::vector<std::string> p = split(c.extra_s, ':');
+      extra = Reg::from_type_and_id(reg_type_of(p[0]), (uint32_t)strtoul(p[1].c_str(), nullptr, 0));
+      bi = BaseInst(inst_id, InstOptions(c.opts), extra);
+    }
+    auto emit = [&](const Operand* o, std::string* bytes) -> Error {
+      size_t off0 = a.offset();
+      if (has_extra) a.set_extra_reg(extra);
+      a.set_inst_options(InstOptions(c.opts));
+      Error e = a.emit_op_array(inst_id, o, size_t(c.nops));
+      a.reset_inst_options(); a.reset_extra_reg();
+      if (e == Error::kOk && a.offset() > off0) *bytes = hexstr(a.buffer_data() + off0, a.offset() - off0);
+      return e;
+    };
+    InstRWInfo rw; memset(&rw, 0, sizeof rw);
+    Error e_rw = Error::kInvalidArgument, e_v = Error::kInvalidArgument, e_e = Error::kInvalidArgument;
+    std::string bytes, claims = "[";
+    unsigned rmflag0 = 0;
+    if (ok && inst_id) {
+      e_v = InstAPI::validate(A, bi, ops, size_t(c.nops));
+      e_rw = InstAPI::query_rw_info(A, bi, ops, size_t(c.nops), &rw);
+      e_e = emit(ops, &bytes);
+      if (e_rw == Error::kOk) {
+        // base register of the replacement: a low GP id no register operand of the case uses
+        uint32_t mb = 3;
+        for (uint32_t cand : { 3u, 6u, 7u, 1u, 2u, 0u }) {
+          bool used = false;
+          for (int j = 0; j < c.nops; j++) if (ops[j].is_reg() && ops[j].as<Reg>().is_gp() && ops[j].as<Reg>().id() == cand) used = true;
+          if (!used) { mb = cand; break; }
+        }
+        for (int i = 0; i < c.nops; i++) {
+          const OpRWInfo& o = rw.operand(size_t(i));
+          if (!ops[i].is_reg() || !o.is_rm()) continue;
+          if (o.rm_size() == 0) { rmflag0++; continue; }
+          Operand ops2[6];
+          for (int j = 0; j < c.nops; j++) ops2[j] = ops[j];
+          ops2[i] = A == Arch::kX64 ? x86::Mem(x86::gpq(mb), 0, o.rm_size()) : x86::Mem(x86::gpd(mb), 0, o.rm_size());
+          Error ev = InstAPI::validate(A, bi, ops2, size_t(c.nops));
+          std::string mbytes;
+          Error ee = emit(ops2, &mbytes);
+          char b[160];
+          snprintf(b, sizeof b, "%s[%d,%u,%u,%u,\"%s\",%d]", claims.size() > 1 ? "," : "", i, o.rm_size(), unsigned(ev), unsigned(ee), mbytes.c_str(), ev == Error::kInvalidImmediate ? 1 : 0);
+          claims += b;
+        }
+      }
+    }
+    claims += "]";
+    char b[384];
+    snprintf(b, sizeof b, "{\"id\":%s,\"iid\":%u,\"v\":%u,\"rw\":%u,\"e\":%u,\"bytes\":\"%s\",\"rmflag0\":%u,\"claims\":", c.id.c_str(), unsigned(inst_id), unsigned(e_v), unsigned(e_rw), unsigned(e_e), bytes.c_str(), rmflag0);
+    out += b;
+    out += claims;
+    out += ",\"ops\":" + rw_json(rw, c.nops) + "}\n";
     if (out.size() > (1 << 20)) { fwrite(out.data(), 1, out.size(), stdout); out.clear(); }
   }
   fwrite(out.data(), 1, out.size(), stdout);
@@ -1352,6 +1443,7 @@ int main(int argc, char** argv) {
   std::string mode = args.str("mode", "host");
   if (mode == "host") return mode_host();
   if (mode == "table") return mode_table(args);
+  if (mode == "rmopt") return mode_rmopt(args);
   if (mode == "a64c") return mode_a64c(args);
   if (mode == "run") return mode_run(args);
   fprintf(stderr, "unknown mode\n");
